@@ -80,6 +80,22 @@ def c07_1(rep, ix):
     rep.check(ok, R, ix.site(f, fs[0]), "the included file is opened at os.path.join(self._cwd, <name>)", "got `%s`" % (u(arg) if arg is not None else None), key="include|join")
     if ok:
         name = resolve(f.node, arg.args[1])
+        # locals inside the name expression (e.g. `quoted = ctx.STR().getText(); ... quoted[1:-1]`) are looked through
+        import copy as _copy
+        name = _copy.deepcopy(name)
+
+        class _R(ast.NodeTransformer):
+            def visit_Name(self, n, depth=[0]):
+                if isinstance(n.ctx, ast.Load) and depth[0] < 4:
+                    r = resolve(f.node, n)
+                    if r is not n and not isinstance(r, ast.Name):
+                        depth[0] += 1
+                        try:
+                            return self.visit(_copy.deepcopy(r))
+                        finally:
+                            depth[0] -= 1
+                return n
+        name = _R().visit(name)
         txt = u(name)
         good = ("ctx.STR().getText()" in txt) and (txt.endswith("[1:-1]") or ".strip('\"')" in txt or '.strip("\\"")' in txt or ".replace('\"', '')" in txt)
         rep.check(good, R, ix.site(f, fs[0]), "the file name is the text of the STR token without its quotes", "got `%s`" % txt, key="include|name")
